@@ -457,6 +457,27 @@ func (g *dmGen) forStmt(b *dmBlk, s *dmScope, d int) {
 		cs.add(&dmVr{name: x, t: dmTChar, live: true})
 	case 4, 5:
 		g.feat("for-in-range")
+		if g.chance(1, 3) {
+			// ranges of other integer types, also near the bounds of the type
+			t := dmPick(g, []*dmTy{dmTInt8, dmTUInt8, dmTInt64, dmTUInt64, dmTWord8, dmTInt256})
+			lo, hi := g.r.Intn(4), 4+g.r.Intn(4)
+			if g.chance(1, 4) {
+				switch t.name {
+				case "Int8":
+					lo, hi = 120, 126
+				case "UInt8", "Word8":
+					lo, hi = 249, 254
+				}
+			}
+			step := ""
+			if g.chance(1, 3) {
+				step = fmt.Sprintf(", step: %s(%d)", t.name, 1+g.r.Intn(3))
+			}
+			b.open("for %s in InclusiveRange(%s(%d), %s(%d)%s) {", x, t.name, lo, t.name, hi, step)
+			cs.add(&dmVr{name: x, t: t, live: true})
+			g.feat("for-in-typed-range")
+			break
+		}
 		b.open("for %s in %s {", x, g.rangeExpr(s, 1))
 		cs.add(&dmVr{name: x, t: dmTInt, live: true})
 	default:
@@ -612,6 +633,14 @@ func (g *dmGen) refStmt(b *dmBlk, s *dmScope, d int) {
 		b.add("let %s = %s.remove(key: %s)", g.fresh("rm"), name, g.dictKey(s, v))
 		v.keys = nil
 		g.feat("auth-reference")
+	case v.t.k == dmKStruct && g.chance(1, 3):
+		// reference to an optional: `&o as &S?` is an optional reference
+		o := g.fresh("v")
+		b.add("var %s: %s? = %s", o, v.t.String(), v.name)
+		b.add("let %s = &%s as &%s?", name, o, v.t.String())
+		s.add(&dmVr{name: o, t: dmOpt(v.t), mut: true, live: true})
+		s.add(&dmVr{name: name, t: dmOpt(dmRef(v.t)), live: true})
+		g.feat("reference-to-optional")
 	default:
 		b.add("let %s = &%s as &%s", name, v.name, v.t.String())
 		s.add(&dmVr{name: name, t: dmRef(v.t), live: true})
